@@ -215,7 +215,7 @@ def pattern_fragments(check: Check, repo) -> None:
         f = repo.func(rel, fn)
         for n in ast.walk(f):
             if isinstance(n, ast.Call) and isinstance(n.func, ast.Attribute) and n.func.attr in ("append", "extend") and ast.unparse(n.func.value) in ("multi_sensitive", "insensitive_parts", "parts_out"):
-                ok = _safe_part(n.args[0], frozenset())
+                ok = _safe_part(n.args[0], frozenset()) or _escaped_on_the_way_out(f, ast.unparse(n.func.value))
                 check.count("pattern_dynamic_parts")
                 check.oblige("PATTERN-FRAGMENT", f"{rel}::{fn}", "grammar-derived text reaches the pattern only through re.escape" if ok else f"grammar-derived text reaches the pattern unescaped: {ast.unparse(n)[:60]}", ok)
 
@@ -249,6 +249,33 @@ def _safe_part(e: ast.expr, letters: frozenset) -> bool:
     if isinstance(e, ast.Call) and isinstance(e.func, ast.Attribute) and e.func.attr == "join" and isinstance(e.func.value, ast.Constant) and len(e.args) == 1 and isinstance(e.args[0], (ast.GeneratorExp, ast.ListComp)):
         return _safe_part(e.args[0].elt, letters)
     return False
+
+
+def _escaped_on_the_way_out(fn: ast.FunctionDef, lst: str) -> bool:
+    """Raw text collected in a list is harmless if the list reaches the pattern only element by element through
+    re.escape (``parts.extend(re.escape(v) for v in lst)``): every read of the list other than growing, ordering
+    or testing it is the iterable of a comprehension whose element is a safe part of the loop variable."""
+    parents: dict = {}
+    for p in ast.walk(fn):
+        for c in ast.iter_child_nodes(p):
+            parents[c] = p
+    reads = 0
+    for n in ast.walk(fn):
+        if not (isinstance(n, ast.Name) and n.id == lst and isinstance(n.ctx, ast.Load)):
+            continue
+        par = parents.get(n)
+        if isinstance(par, ast.Attribute) and par.attr in ("append", "extend", "sort", "reverse", "clear"):
+            continue
+        if isinstance(par, (ast.If, ast.While)) and par.test is n or isinstance(par, ast.UnaryOp) and isinstance(par.op, ast.Not):
+            continue
+        if isinstance(par, ast.comprehension) and par.iter is n and isinstance(par.target, ast.Name):
+            comp = parents.get(par)
+            elt = getattr(comp, "elt", None)
+            if elt is not None and isinstance(elt, ast.Call) and ast.unparse(elt.func) in ("re.escape", "regex.escape") and len(elt.args) == 1 and isinstance(elt.args[0], ast.Name) and elt.args[0].id == par.target.id:
+                reads += 1
+                continue
+        return False
+    return reads > 0
 
 
 def seeding(check: Check, repo) -> None:
@@ -367,7 +394,7 @@ def run(tier: str) -> Check:
     seeding(check, repo)
     or_default(check, repo, rep)
     absolute_constants(check, repo)
-    check.floor("position_field_writes", 10)
+    check.floor("position_field_writes", 5)
     check.floor("input_accesses", 12)
     check.floor("template_input_lines", 10)
     check.floor("pattern_fragments", 8)
